@@ -140,6 +140,20 @@ StrictOrKnown ==
      LET fld == ops[k][i] IN
      \A f \in fld.fs : (~defs[f].inl /\ defs[f].on = fld.T) =>
         \A ct \in DOMAIN opBases[k][i] : f \in opBases[k][i][ct] \/ ct # fld.T
+\* C02 (f): the fragment definitions sent with operation k = exactly the fragments reachable from it by spreads.
+\* As fixed the closure is computed from the operation's text; the old computation used the accumulators
+\* (fragments used as mixins, what those reach, and the unpacked ones) and missed fragments that contribute nothing
+\* to the generated classes (deviation "old_closure")
+SpreadsOf(o) == UNION {o[i].fs : i \in DOMAIN o}
+ReachOp(D, o) == UNION {Reach(D, f) : f \in SpreadsOf(o)}
+SentFragments(D, o) ==
+  IF "old_closure" \in Deviations
+    THEN LET res == [i \in DOMAIN o |-> FieldRes(D, o[i])]
+             mx == UNION {UNION {res[i][ct].mix : ct \in DOMAIN res[i]} : i \in DOMAIN o}
+             un == UNION {UNION {res[i][ct].unp : ct \in DOMAIN res[i]} : i \in DOMAIN o} IN
+         IF mx \cup un = {} THEN {} ELSE mx \cup UNION {Reach(D, f) : f \in mx} \cup un
+    ELSE ReachOp(D, o)
+DocIsClosure == \A k \in DOMAIN ops : SentFragments(defs, ops[k]) = ReachOp(defs, ops[k])
 \* accumulators only grow while operations are added
 Monotone == [][unpacked \subseteq unpacked' /\ mixins \subseteq mixins']_vars
 =============================================================================
